@@ -99,10 +99,11 @@ class Gen:
         self.consts = []       # {"n", "t", "e"}
         self.funcs = []        # {"n", "params": [{"n","t"}], "ret": t|None, "body"}
         self.uid = 0
+        self.no_calls = 0
 
     def fresh(self, p):
         self.uid += 1
-        return "%s%d" % (p, self.uid)
+        return "%s_%d" % (p, self.uid)    # never spells a predeclared name such as i32
 
     # ---------------------------------------------------------------- types
     def scalar(self, allow_bool=False):
@@ -267,7 +268,7 @@ class Gen:
             return {"e": "builtin", "f": "select", "args": [self.expr(env, t, d), self.expr(env, t, d),
                                                           self.expr(env, "bool" if not is_vec(t) or rng.chance(1, 2) else ["vec", t[1], "bool"], d)]}
         if p == "call":
-            fs = [f for f in self.funcs if f["ret"] == t and f["n"] in env]
+            fs = [f for f in self.funcs if f["ret"] == t and f["n"] in env and self.no_calls == 0]
             if fs:
                 f = rng.choice(fs)
                 args = [self.arg_for(env, q["t"], d) for q in f["params"]]
@@ -440,7 +441,12 @@ class Gen:
                 op = rng.choice(["+", "-", "*"])
             else:
                 return []
-            return [{"s": "compound", "op": op, "l": l, "e": self.expr(env, t, d - 2)}]
+            self.no_calls += 1
+            try:
+                rhs = self.expr(env, t, d - 2)
+            finally:
+                self.no_calls -= 1
+            return [{"s": "compound", "op": op, "l": l, "e": rhs}]
         if c == "if":
             return [{"s": "if", "c": self.expr(env, "bool", d - 1),
                      "then": self.block(env, rng.range(1, 3), depth - 1, in_loop, ret_t, in_switch, allow_return),
@@ -467,7 +473,7 @@ class Gen:
             i = self.fresh("i")
             n = rng.range(1, 4)
             env2 = dict(env)
-            env2[i] = ("i32", "var")
+            env2[i] = ("i32", "counter")      # readable, never assigned by generated statements
             body = self.block(env2, rng.range(1, 3), depth - 1, True, ret_t, False, allow_return)
             upd = {"s": "incr", "l": {"e": "var", "n": i}} if rng.chance(1, 2) else \
                   {"s": "compound", "op": "+", "l": {"e": "var", "n": i}, "e": lit("i32", 1)}
@@ -558,7 +564,7 @@ class Gen:
             binding += 1
         if rng.chance(1, 2):
             t = self.value_type()
-            self.globals.append({"n": "priv0", "space": "private", "t": t, "e": self.const_expr(t) if rng.chance(1, 2) else None})
+            self.globals.append({"n": "priv0", "space": "private", "t": t, "e": self.const_expr(t, scalar_nonneg=True) if rng.chance(1, 2) and self.flat_init_ok(t) else None})
             env["priv0"] = (t, "gvar_rw")
         if self.o["workgroup"] and rng.chance(1, 3):
             t = self.value_type(1, host=True)
@@ -592,10 +598,31 @@ class Gen:
             return ["mat", self.rng.choice([2, 3, 4]), 4]
         return ["vec", self.rng.choice([2, 4]), self.scalar()]
 
-    def const_expr(self, t):
-        saved = self.o["max_depth"]
-        e = self.construct({}, t, 0) if not is_scalar(t) else self.lit_of(t)
-        return e
+    def flat_init_ok(self, t):
+        """initialiser shapes of private variables that the lowerer keeps (others are silently dropped: known finding)"""
+        return is_scalar(t)   # vector/array constructors may get literals of the wrong scalar kind (known finding)
+
+    def const_expr(self, t, scalar_nonneg=False):
+        """module-scope initialiser within what the lowerer handles correctly (see known findings:
+        non-literal scalar initialisers of private variables are dropped; nested partial constructors
+        in consts get an invalid type handle): literals and flat constructors only."""
+        if is_scalar(t):
+            e = self.lit_of(t)
+            if scalar_nonneg and t != "bool":
+                if t == "f32" and e["v"] & 0x80000000:
+                    e = lit("f32", e["v"] & 0x7FFFFFFF)
+                if t == "i32" and e["v"] & 0x80000000:
+                    e = lit("i32", e["v"] & 0x7FFFFFFF)
+            return e
+        if t[0] == "vec":
+            return {"e": "cons", "t": t, "args": [self.const_expr(t[2], scalar_nonneg) for _ in range(t[1])]}
+        if t[0] == "mat":
+            return {"e": "cons", "t": t, "args": [self.const_expr(["vec", t[2], "f32"], scalar_nonneg) for _ in range(t[1])]}
+        if t[0] == "arr":
+            return {"e": "cons", "t": t, "args": [self.const_expr(t[2], scalar_nonneg) for _ in range(t[1])]}
+        if t[0] == "struct":
+            return {"e": "cons", "t": t, "args": [self.const_expr(m["t"]) for m in self.struct_def(t[1])["members"]]}
+        raise ValueError(t)
 
     def helper(self, env, k):
         rng = self.rng
